@@ -523,7 +523,11 @@ async fn run(input: RunInput, mode: Mode) -> RunOutput {
                 Some(l) => Bytes::from(vec![7u8; l + 1 + (l / 3)]),
                 None => Bytes::from_static(b"ping"),
             };
-            let listed_before = slots[i].node.net.peers().contains(&ids[j]);
+            // (not while a hang-up by the other side is still on its way: thorough-tier seed
+            // 13615311595422362811, n2 hung up on n0 a millisecond before n0's oversized request)
+            let t_op = w.now_ns();
+            let hangup_under_way = clean_disconnects.iter().any(|(t, c, b)| ((*c == i && *b == j) || (*c == j && *b == i)) && t_op.saturating_sub(*t) < (2 * lat_max / 1000 + 50) * 1_000_000);
+            let listed_before = slots[i].node.net.peers().contains(&ids[j]) && !hangup_under_way;
             let rr = rpc_bounded(&slots[i].node, ids[j], Request::new(body), Duration::from_secs(60)).await;
             desc = format!("rpc n{i}>n{j}{}:{}", if oversized.is_some() { "(oversized)" } else { "" }, if rr.is_ok() { "ok" } else { "err" });
             if oversized.is_some() {
